@@ -304,7 +304,8 @@ func TestVerif_C20_create(t *testing.T) {
 	n := verifh.N(12000, 250000)
 	for i := 0; i < n || !c20All(cnt, must); i++ {
 		if i > 20*n {
-			t.Fatalf("declared buckets not reached: %v", cnt)
+			t.Errorf("declared buckets not reached: %v", cnt) // the collected cases are judged below: they hold the failing inputs
+			break
 		}
 		var lines []string
 		var gen *c20Chal
